@@ -348,3 +348,23 @@ def syncblocker_rules(ctx, rule="R-SIB"):
             site = pt; ok = const_int(f, f.node(pt)["args"][0]) == 1
         ctx.ob(rule, SB + "::current", "ignore-cancel", ok, "SyncBlocker parks with cancel ignored, so Canceled is reported to the handshake instead of panicking inside park" if ok else
                "SyncBlocker::current no longer creates a cancel-ignoring Blocker: a cancel would panic inside park and skip the forwarding handshake", f.where(site))
+
+# ------------------------------------------------------------------------------------------------
+# poison flag (C09, C13)
+
+def poison_rules(ctx):
+    C = "may::cancel::CancelImpl"
+    FD = "may::sync::poison::Flag::done"
+    PST = atomic("store", "may::sync::poison::Flag.failed")
+    ctx.guarded(FD, PST, call_true(r"std::thread::panicking"), "poison-only-when-panicking", "a guard poisons only when dropped by a panic", pred_label="edge `thread::panicking()` is true")
+    def not_canceled_edge(a):
+        if a.kind != "truth" or a.truth is not False: return False
+        o = a.origin
+        alts = [simplify(x) for x in o[2]] if o[0] == "phi" else [o]
+        return any(x[0] == "call" and x[2] == C + "::is_canceled" for x in alts)
+    ctx.guarded(FD, PST, not_canceled_edge, "no-poison-on-cancel", "a guard dropped by a cancellation unwind releases without poisoning", pred_label="edge `is_canceled` is false")
+    ctx.must_follow(FD, None, Call(re.escape(C) + "::is_canceled", transitive=False), "coroutine-consults-cancel", "in coroutine context the cancel state is consulted before poisoning",
+                    edge=call_true(r"may::coroutine_impl::is_coroutine"), edge_label="edge `is_coroutine()` is true", exits=lambda g: ctx.an.sites(g, PST, "must"))
+    def guard_not_panicking(a):
+        return a.kind == "truth" and a.truth is False and all_fields(a.origin)[-1:] == ["may::sync::poison::Guard.panicking"]
+    ctx.guarded(FD, PST, guard_not_panicking, "poison-only-new-panic", "no poisoning when the guard was created while already panicking", pred_label="edge `guard.panicking` is false")
